@@ -511,6 +511,30 @@ def install(R):
             return o
         return f
     R.fns["pyx:mlinsights/mlmodel/piecewise_tree_regression_criterion_linear.pyx::LinearRegressorCriterion"] = pyx_criterion("LinearRegressorCriterion")
+    olsF = z3.Function("node_beta", z3.IntSort(), z3.IntSort(), z3.RealSort())       # (criterion id, coefficient index) -> value
+    R.olsF = olsF
+
+    def _lin_create(E, X, y, sample_weight=None):
+        """ASSUMED (compiled, LAPACK): LinearRegressorCriterion.create(X, y, w) is a criterion over exactly these rows; node_beta writes the
+        coefficients (features then intercept) of ITS least-squares fit - a function of this criterion - into the given vector"""
+        o = Obj("Criterion", tag="Criterion")
+        o.fields.update({"$class": "LinearRegressorCriterion", "$X": X, "$y": y, "$w": sample_weight, "$cid": E.int("criterion_id")})
+        E.trace.append(dict(op="LinearRegressorCriterion.create", X=X, y=y, w=sample_weight, result=o))
+        return o
+    R.fns["pyx:mlinsights/mlmodel/piecewise_tree_regression_criterion_linear.pyx::LinearRegressorCriterion.create"] = _lin_create
+
+    def _node_beta(E, recv, args, kwargs, node):
+        dest = args[0]
+        if not (isinstance(dest, NdArr) and dest.ndim == 1):
+            raise Unsupported("node_beta(%r)" % (dest,))
+        X = recv.fields["$X"]
+        E.safety("node-beta-size", z(dest.shape[0]) == z(X.shape[1]) + 1, node, "ValueError")
+        E.note_write(dest, node)
+        cid = recv.fields["$cid"]
+        dest.assign_fn(lambda j: olsF(cid, j))
+        E.trace.append(dict(op="node_beta", obj=recv, dest=dest))
+        return None
+    R.methods[("Criterion", "node_beta")] = _node_beta
     R.fns["pyx:mlinsights/mlmodel/piecewise_tree_regression_criterion_fast.pyx::SimpleRegressorCriterionFast"] = pyx_criterion("SimpleRegressorCriterionFast")
     R.fns["pyx:mlinsights/mlmodel/piecewise_tree_regression_criterion.pyx::SimpleRegressorCriterion"] = pyx_criterion("SimpleRegressorCriterion")
 
@@ -818,6 +842,11 @@ def install(R):
     def mask_info(E, mask):
         """ghost symbols of one boolean mask: count K, rank: row -> position, unrank: position -> row"""
         key = ("mask", mask.cell.term.get_id(), tuple(map(repr, mask.imap)), tuple(map(repr, mask.shape)))
+        if getattr(mask, "canonical_key", False):
+            # masks declared interchangeable when they have the same pointwise definition (filter of a comprehension vs. the same
+            # predicate written in a contract): key on the body at a canonical index
+            canon = z3.Int("mask!canon")
+            key = ("mask-body", z3.simplify(zbool(mask.get(canon))).sexpr(), tuple(map(repr, mask.shape)))
         cache = E.ps.setdefault("masks", {})
         if key in cache:
             return cache[key]
